@@ -11,11 +11,11 @@ use vcommon::{
 use crate::c08::sample_of;
 
 pub const RULE: &str = "case = 2..5 connections with roles flooder (bursts of 3..8 complete calls \
-per delivery), single (one call per delivery), idle (open, silent) and - in the transition lane - \
+per delivery; none, all or every other of them flagged oneway), single (one call per delivery, or each call delivered in two pieces with other events in between), idle (open, silent) and - in the transition lane - \
 closer (calls, then EOF) and streamer (Echo, Sub, Echo with stream events), in any list position, \
 plus a global step list (arrivals, deliveries, polls; polls are rarer than deliveries so that \
 several connections have calls waiting when the server runs). Every delivery ends at a frame \
-boundary, so 'a complete call is waiting' is unambiguous. Oracle = monitor over the global service \
+boundary or inside a connection's only outstanding call, so 'a complete call is waiting' is unambiguous. Oracle = monitor over the global service \
 order recorded by the scripted service: (strict lane: no closures, no streams) within one run of \
 the server to quiescence, between two consecutive services of connection a every other connection \
 that had a call waiting since before the first of them and still has one after the second is \
@@ -36,7 +36,21 @@ enum Role {
 }
 
 fn call(kind: CallKind, id: u32) -> FrameSpec {
-    FrameSpec::Call { kind, id, oneway: false, more: kind == CallKind::Sub, pad: (id % 3) as u16, flags_first: false }
+    call_ow(kind, id, false)
+}
+
+fn call_ow(kind: CallKind, id: u32, oneway: bool) -> FrameSpec {
+    FrameSpec::Call { kind, id, oneway: oneway && kind != CallKind::Sub, more: kind == CallKind::Sub, pad: (id % 3) as u16, flags_first: oneway && id % 2 == 0 }
+}
+
+/// Which calls of a script are flagged oneway (they are served like any other call, they just get
+/// no reply): bits 6..7 of the first size byte select none / all / every other / none.
+fn oneway_of(sizes: &[u8], id: u32) -> bool {
+    match sizes.first().copied().unwrap_or(0) / 64 {
+        1 => true,
+        2 => id % 2 == 0,
+        _ => false,
+    }
 }
 
 /// Build a connection script for a role. `sizes`: burst sizes (flooder) / number of calls.
@@ -50,7 +64,7 @@ fn script(c: usize, role: Role, sizes: &[u8]) -> ConnScript {
             for &s in sizes.iter().take(3) {
                 for _ in 0..(3 + s % 6) {
                     let id = frames.len() as u32;
-                    frames.push(call(kinds[id as usize % 3], id));
+                    frames.push(call_ow(kinds[id as usize % 3], id, oneway_of(sizes, id)));
                 }
                 burst_ends.push(frames.len());
             }
@@ -58,7 +72,7 @@ fn script(c: usize, role: Role, sizes: &[u8]) -> ConnScript {
         Role::Single | Role::Closer => {
             for _ in 0..(1 + sizes.first().copied().unwrap_or(0) % 3) {
                 let id = frames.len() as u32;
-                frames.push(call(kinds[(id as usize + c) % 3], id));
+                frames.push(call_ow(kinds[(id as usize + c) % 3], id, oneway_of(sizes, id)));
                 burst_ends.push(frames.len());
             }
         }
@@ -83,6 +97,20 @@ fn script(c: usize, role: Role, sizes: &[u8]) -> ConnScript {
     let ends = s.frame_ends(c);
     let total = s.stream(c).len();
     s.cuts = burst_ends.iter().map(|&k| ends[k - 1]).filter(|&e| e < total).collect();
+    // a single caller may deliver each call in two pieces (second size byte odd): the call is complete,
+    // hence waiting, once its second piece has been delivered
+    if matches!(role, Role::Single | Role::Closer) && sizes.get(1).copied().unwrap_or(0) % 2 == 1 {
+        let mut start = 0;
+        let mut cuts = Vec::new();
+        for &e in &ends {
+            cuts.push(start + (e - start) / 2);
+            if e < total {
+                cuts.push(e);
+            }
+            start = e;
+        }
+        s.cuts = cuts;
+    }
     s
 }
 
@@ -254,13 +282,13 @@ fn enumerated() -> Vec<Scenario> {
                 if i == j {
                     continue;
                 }
-                for second_single in [None, Some((j + 1) % n)] {
+                for (second_single, flavour) in [(None, 0u8), (Some((j + 1) % n), 0), (None, 1), (Some((j + 1) % n), 2), (None, 3)] {
                     let conns: Vec<ConnScript> = (0..n)
                         .map(|c| {
                             if c == i {
-                                script(c, Role::Flooder, &[3, 2])
+                                script(c, Role::Flooder, &[3 + 64 * flavour, 2])
                             } else if c == j || (Some(c) == second_single && c != i) {
-                                script(c, Role::Single, &[0])
+                                script(c, Role::Single, &[0, (flavour % 2) as u8])
                             } else {
                                 script(c, Role::Idle, &[])
                             }
@@ -269,6 +297,8 @@ fn enumerated() -> Vec<Scenario> {
                     for variant in 0..4 {
                         let mut steps: Vec<Step> = (0..n).map(Step::Arrive).collect();
                         steps.push(Step::Poll);
+                        // split single callers need two deliveries per call
+                        let split = flavour % 2 == 1;
                         match variant {
                             0 => {
                                 // everything at once
@@ -276,6 +306,12 @@ fn enumerated() -> Vec<Scenario> {
                                 for c in 0..n {
                                     if c != i {
                                         steps.push(Step::Chunk(c));
+                                        if split {
+                                            // the flooder is served between the two pieces
+                                            steps.push(Step::Poll);
+                                            steps.push(Step::Chunk(i));
+                                            steps.push(Step::Chunk(c));
+                                        }
                                     }
                                 }
                                 steps.push(Step::Poll);
